@@ -30,14 +30,16 @@ enum Kind {
     Bad,
 }
 
-const TEXTS: [(&str, Kind); 9] = [
+const TEXTS: [(&str, Kind); 10] = [
+    // blanks only by Unicode's definition: not a deletion, a line that does not tokenize
+    (" \u{a0}", Kind::Bad),
+    ("\u{b}", Kind::Bad),
     // two texts that differ only in the sign of a zero inside a DATA item
     (" DATA 0: PRINT \"z\";", Kind::Good('z')),
     (" DATA -0: PRINT \"z\";", Kind::Good('z')),
     // a line whose first statement executes nothing, with one that prints behind it
     (" DATA 1: PRINT \"d\";", Kind::Good('d')),
     (" PRINT \"a\";", Kind::Good('a')),
-    (" PRINT \"b\";", Kind::Good('b')),
     (" :", Kind::Silent),
     ("", Kind::Empty),
     (" PRINT \"", Kind::Bad),
@@ -194,7 +196,7 @@ pub fn run(thorough: bool) -> Report {
     };
     let mk = || Sess::new();
     let (stats, viol) = bfs(&mk, &[vec![]], &alpha, 40, &check, None, 10_000_000);
-    if !stats.frontier_emptied {
+    if !stats.frontier_emptied && !stats.stopped_on_violations {
         machinery("C04 search did not reach an empty frontier");
     }
     let mut seen = std::collections::HashSet::new();
